@@ -16,7 +16,7 @@ import (
 var Pool = []string{
 	"a", "A", "b", "a/b", "A/b", "a/B", "a/b/c",
 	"go.mod", "GO.MOD", "Go.Mod", "sub/go.mod", "sub/GO.MOD", "sub/x.go", "sub/deep/y.go", "SUB/z.go",
-	"vendor/modules.txt", "vendor/x.go", "vendor/p/x.go", "pkg/vendor/vendor.go", "pkg/vendor/p/x.go", "sub/vendor/p/x.go",
+	"vendor/modules.txt", "vendor/x.go", "vendor/p/x.go", "pkg/vendor/vendor.go", "pkg/vendor/p/x.go", "sub/vendor/p/x.go", "cmd/vendor/vendor.go",
 	"LICENSE", "sub/LICENSE", ".hg_archival.txt", "sub/.hg_archival.txt",
 	"con", "con.txt", "a b", "é", "K", "k", "k/x", "σ", "ς",
 	"../x", "./a", "a//b", "a/", "/abs", "", "a:b", "a\\b", ".", "vendor", "sub", "x.", "a~1",
